@@ -11,53 +11,83 @@
        hash(d') = hash(d)  <=>  the edit is not wire-relevant          describe(d) = Payload(d)            *)
 EXTENDS Naturals, Sequences, FiniteSets
 
-CONSTANTS Types        \* subset of AllTypes used for parameter / result types in this run
+CONSTANTS Types,       \* subset of AllTypes used as the type of a single parameter in this run
+          Types2,      \* subset used where parameter lists are crossed with result types / headers / two parameters
+          RetTypes     \* subset used for unary result types (a top-level dataclass RESULT is left out: how `-> Dc` is
+                       \* materialised is a matter of the type mapping, C02/C06, not of describe's faithfulness)
 
-AllTypes == {"int", "i32", "str", "float", "bool", "bytes", "list_int", "dc"}
-\* the Arrow type a Python annotation is carried as ("dc" = an ArrowSerializableDataclass travels as one binary blob;
-\* "i32" = Annotated[int, ArrowType(int32)])
+(* Every construct rpc_methods() / build_describe_batch() / compute_protocol_hash() reads from a Protocol class:
+   the class name; each public callable's name; its return annotation (None | T | Optional[T] | Stream | Stream[S] |
+   Stream[S, H]); the base class of S (ProducerState / ExchangeState / raw StreamState); whether H is an
+   ArrowSerializableDataclass and its ARROW_SCHEMA (possibly with NO fields); every parameter's name, order, annotation
+   (plain type, Optional in its three spellings, Annotated with and without ArrowType, NewType, Enum, list / dict /
+   frozenset generics, nested and top-level dataclasses, an empty dataclass, pa.RecordBatch), default and kind
+   (positional-or-keyword / keyword-only); docstrings (absent, summary, Args: section); the protocol_version ClassVar;
+   inherited methods, private members and non-callable attributes (skipped); the defining module.                  *)
+AllTypes == {"int", "i32", "str", "float", "bool", "bytes", "list_int", "dc",
+             "enum", "dict", "fset", "list_dc", "list_opt", "newtype", "dc0", "ann_int", "batch"}
+\* the Arrow type a Python annotation is carried as
 ArrowOf(t) == CASE t = "int" -> "int64" [] t = "i32" -> "int32" [] t = "str" -> "utf8" [] t = "float" -> "float64"
-                [] t = "bool" -> "bool" [] t = "bytes" -> "binary" [] t = "dc" -> "binary" [] t = "list_int" -> "list<int64>"
+                [] t = "bool" -> "bool" [] t = "bytes" -> "binary" [] t = "list_int" -> "list<int64>"
+                [] t = "dc" -> "binary"            \* a top-level ArrowSerializableDataclass travels as one IPC blob
+                [] t = "dc0" -> "binary"           \* ... also one with no fields
+                [] t = "batch" -> "binary"         \* pa.RecordBatch
+                [] t = "enum" -> "dict<int16,utf8>"
+                [] t = "dict" -> "map<utf8,int64>" \* dict[str, int]
+                [] t = "fset" -> "list<int64>"     \* frozenset[int]
+                [] t = "list_opt" -> "list<int64>" \* list[Optional[int]]
+                [] t = "list_dc" -> "list<struct>" \* list[Dc]: nested dataclasses are structs
+                [] t = "newtype" -> "int64"        \* NewType("UserId", int)
+                [] t = "ann_int" -> "int64"        \* Annotated[int, "a note"]  (no ArrowType)
 
-\* three stream kinds by the BASE CLASS of the state: ProducerState (is_exchange false), ExchangeState (true), and a state
-\* deriving from raw StreamState (is_exchange unknown = null).  "kind" edits between them = "change the state base class".
-Kinds   == {"unary_void", "unary_ret", "producer", "exchange", "rawstream"}
-Streams == {"producer", "exchange", "rawstream"}
+\* stream kinds by what the return annotation says about the state: ProducerState (is_exchange false), ExchangeState
+\* (true), a state deriving from raw StreamState (null), and bare `Stream` without parameters (null, never a header)
+Kinds   == {"unary_void", "unary_ret", "producer", "exchange", "rawstream", "barestream"}
+Streams == {"producer", "exchange", "rawstream", "barestream"}
 Hdrs    == {"none", "h0", "h1", "h2"}  \* h1, h2: two header dataclasses differing in ONE field's nullability;
                                        \* h0: a header dataclass with NO fields (declared header, empty schema)
+HdrsOf(k) == IF k = "barestream" THEN {"none"} ELSE IF k \in Streams THEN Hdrs ELSE {"none"}
 P(n, t, nul, dflt) == [n |-> n, t |-> t, nul |-> nul, dflt |-> dflt]      \* dflt: "none" | "d1" | "d2"
-\* result types: a dataclass RESULT is left out -- how the library materialises `-> Dc` / `-> Optional[Dc]` (nullable binary /
-\* struct) is a matter of the type mapping (C02/C06), not of whether describe reports the schema the server uses
-RetTypes == Types \ {"dc"}
 NoRet == [t |-> "int", nul |-> FALSE]                                       \* canonical filler when kind # unary_ret
 
 \* ---------------------------------------------------------------- base definitions
-ParamLists == {<<>>}
-         \cup {<<P("a", t, nul, df)>> : t \in Types, nul \in BOOLEAN, df \in {"none", "d1"}}
-         \cup {<<P("a", t, nul, "none"), P("b", "str", FALSE, df)>> : t \in Types, nul \in BOOLEAN, df \in {"none", "d1"}}
-Method(k, ps, r, h) == [name |-> "m1", kind |-> k, params |-> ps, ret |-> r, hdr |-> h, st |-> "s1", doc |-> "d0"]
+OneParam(T)  == {<<P("a", t, nul, df)>> : t \in T, nul \in BOOLEAN, df \in {"none", "d1"}}
+TwoParams(T) == {<<P("a", t, nul, "none"), P("b", "str", FALSE, df)>> : t \in T, nul \in BOOLEAN, df \in {"none", "d1"}}
+ParamLists == {<<>>} \cup OneParam(Types) \cup TwoParams(Types2)       \* every parameter type on its own
+SmallLists == {<<>>} \cup OneParam(Types2) \cup TwoParams(Types2)      \* the lists crossed with result types and headers
+\* kw: parameters are keyword-only;  osp: how Optional is spelled (Optional[T] | T|None | None|T);  doc: "nodoc" | d0 | d1 | d2
+Method(k, ps, r, h) == [name |-> "m1", kind |-> k, params |-> ps, ret |-> r, hdr |-> h, st |-> "s1", doc |-> "d0",
+                        kw |-> FALSE, osp |-> "opt"]
 Methods == {Method("unary_void", ps, NoRet, "none") : ps \in ParamLists}
-      \cup {Method("unary_ret", ps, [t |-> t, nul |-> nul], "none") : ps \in ParamLists, t \in RetTypes, nul \in BOOLEAN}
-      \cup {Method(k, ps, NoRet, h) : k \in Streams, ps \in ParamLists, h \in Hdrs}
-Def(m) == [pname |-> "SvcA", pdoc |-> "d0", version |-> "v120", second |-> TRUE, order |-> "12", m |-> m]
+      \cup {Method("unary_ret", ps, [t |-> t, nul |-> nul], "none") : ps \in SmallLists, t \in RetTypes, nul \in BOOLEAN}
+      \cup {Method(k, ps, NoRet, "none") : k \in Streams, ps \in ParamLists}
+      \cup UNION {{Method(k, ps, NoRet, h) : ps \in SmallLists, h \in HdrsOf(k)} : k \in Streams}
+\* inherit: m1 is declared on a base Protocol;  private: the class also has a _helper method and a ClassVar attribute;
+\* module: name of the defining module
+Def(m) == [pname |-> "SvcA", pdoc |-> "d0", version |-> "v120", second |-> TRUE, order |-> "12", inherit |-> FALSE,
+           private |-> FALSE, module |-> "mod_a", m |-> m]
 BaseDefs == {Def(m) : m \in Methods}
 
 \* ---------------------------------------------------------------- edits
-EnvEdits == {"server_id", "process", "impl_swap", "rebuild"}      \* the definition itself is untouched
+EnvEdits == {"server_id", "process", "impl_swap", "rebuild", "server_version"}      \* the definition itself is untouched
 Ed(e, arg) == [e |-> e, arg |-> arg]
 Last(s) == s[Len(s)]
+HasNullable(m) == (\E i \in 1..Len(m.params) : m.params[i].nul) \/ (m.kind = "unary_ret" /\ m.ret.nul)
 Edits(d) ==
   LET m == d.m IN
        {Ed(e, "-") : e \in EnvEdits}
-  \cup {Ed("rename_protocol", "-"), Ed("protocol_doc", "-"), Ed("method_doc", "-"), Ed("rename_method", "-"),
-        Ed("toggle_second", "-"), Ed("version", "v130"), Ed("version", "none")}
+  \cup {Ed("rename_protocol", "-"), Ed("protocol_doc", "-"), Ed("method_doc", "-"), Ed("remove_doc", "-"), Ed("rename_method", "-"),
+        Ed("toggle_second", "-"), Ed("version", "v130"), Ed("version", "none"), Ed("inherit", "-"), Ed("private_members", "-"),
+        Ed("module_name", "-")}
   \cup (IF d.second THEN {Ed("swap_method_order", "-")} ELSE {})
   \cup {Ed("kind", k) : k \in Kinds \ {m.kind}}
-  \cup (IF m.kind \in Streams THEN {Ed("header", h) : h \in Hdrs \ {m.hdr}} \cup {Ed("state_class", "-")} ELSE {})
+  \cup (IF m.kind \in Streams \ {"barestream"} THEN {Ed("header", h) : h \in Hdrs \ {m.hdr}} \cup {Ed("state_class", "-")} ELSE {})
   \cup (IF m.kind = "unary_ret" THEN {Ed("retype_ret", t) : t \in RetTypes \ {m.ret.t}} \cup {Ed("flip_null_ret", "-")} ELSE {})
+  \cup (IF HasNullable(m) THEN {Ed("optional_spelling", "pipe"), Ed("optional_spelling", "rpipe")} ELSE {})
   \cup (IF Len(m.params) >= 1
         THEN {Ed("retype_param", t) : t \in Types \ {m.params[1].t}}
-             \cup {Ed("rename_param", "-"), Ed("flip_null_param", "-"), Ed("remove_param", "-"), Ed("default", "-"), Ed("param_doc", "-")}
+             \cup {Ed("rename_param", "-"), Ed("flip_null_param", "-"), Ed("remove_param", "-"), Ed("default", "-"), Ed("param_doc", "-"),
+                   Ed("keyword_only", "-")}
         ELSE {})
   \cup (IF Len(m.params) <= 1 THEN {Ed("add_param", "-")} ELSE {Ed("swap_params", "-")})
 
@@ -68,14 +98,20 @@ Apply(d, ed) ==
     [] e = "rename_protocol" -> [d EXCEPT !.pname = "SvcB"]
     [] e = "protocol_doc"    -> [d EXCEPT !.pdoc = "d1"]
     [] e = "method_doc"      -> WithM(d, [m EXCEPT !.doc = "d1"])
+    [] e = "remove_doc"      -> WithM(d, [m EXCEPT !.doc = "nodoc"])
     [] e = "param_doc"       -> WithM(d, [m EXCEPT !.doc = "d2"])           \* d2 = same summary, different Args: text
     [] e = "rename_method"   -> WithM(d, [m EXCEPT !.name = "m9"])
     [] e = "toggle_second"   -> [d EXCEPT !.second = ~d.second]
     [] e = "swap_method_order" -> [d EXCEPT !.order = "21"]
     [] e = "version"         -> [d EXCEPT !.version = ed.arg]
+    [] e = "inherit"         -> [d EXCEPT !.inherit = TRUE]
+    [] e = "private_members" -> [d EXCEPT !.private = TRUE]
+    [] e = "module_name"     -> [d EXCEPT !.module = "mod_b"]
+    [] e = "optional_spelling" -> WithM(d, [m EXCEPT !.osp = ed.arg])
+    [] e = "keyword_only"    -> WithM(d, [m EXCEPT !.kw = TRUE])
     [] e = "kind"            -> WithM(d, [m EXCEPT !.kind = ed.arg,
                                                    !.ret = IF ed.arg = "unary_ret" THEN [t |-> "str", nul |-> FALSE] ELSE NoRet,
-                                                   !.hdr = IF ed.arg \in Streams THEN m.hdr ELSE "none"])
+                                                   !.hdr = IF ed.arg \in Streams \ {"barestream"} THEN m.hdr ELSE "none"])
     [] e = "header"          -> WithM(d, [m EXCEPT !.hdr = ed.arg])
     [] e = "state_class"     -> WithM(d, [m EXCEPT !.st = "s2"])
     [] e = "retype_ret"      -> WithM(d, [m EXCEPT !.ret.t = ed.arg])
@@ -89,15 +125,6 @@ Apply(d, ed) ==
     [] e = "swap_params"     -> WithM(d, [m EXCEPT !.params = <<[m.params[2] EXCEPT !.dflt = "none"], [m.params[1] EXCEPT !.dflt = m.params[2].dflt]>>])
     [] e = "default"         -> WithM(d, [m EXCEPT !.params[Len(m.params)].dflt = IF Last(m.params).dflt = "none" THEN "d1" ELSE "d2"])
 
-\* the normative classification of edit kinds (one row per kind)
-Wire(d, ed) ==
-  LET e == ed.e IN
-  IF e \in EnvEdits \cup {"protocol_doc", "method_doc", "param_doc", "swap_method_order", "state_class", "default"} THEN "irrelevant"
-  ELSE IF e = "version" THEN "either"                         \* carried by describe, deliberately outside the hash; statement silent
-  ELSE IF e = "retype_param" /\ ArrowOf(d.m.params[1].t) = ArrowOf(ed.arg) THEN "either"   \* bytes <-> dataclass: same schema bytes
-  ELSE IF e = "retype_ret" /\ ArrowOf(d.m.ret.t) = ArrowOf(ed.arg) THEN "either"
-  ELSE "relevant"
-
 CasesOf(d) == {[d |-> d, ed |-> ed] : ed \in Edits(d)}
 Cases(z) == UNION {CasesOf(d) : d \in BaseDefs}      \* enumerated as  \E d \in BaseDefs : c \in CasesOf(d)
 
@@ -110,15 +137,26 @@ MethodPayload(m) ==
    has_return |-> m.kind = "unary_ret",
    params |-> FieldsOf(m.params),
    result |-> IF m.kind = "unary_ret" THEN <<[n |-> "result", arrow |-> ArrowOf(m.ret.t), nul |-> m.ret.nul]>> ELSE <<>>,
-   has_header |-> m.kind \in Streams /\ m.hdr # "none",
+   has_header |-> m.kind \in Streams /\ m.hdr # "none",          \* declared, even when the header schema has no fields
    header |-> IF m.kind \in Streams THEN m.hdr ELSE "none",
-   is_exchange |-> IF m.kind = "exchange" THEN "true" ELSE IF m.kind = "producer" THEN "false" ELSE "null"]
+   is_exchange |-> IF m.kind = "exchange" THEN "true" ELSE IF m.kind = "producer" THEN "false" ELSE "null"]   \* raw / bare: unknown
 \* the fixed second method  zz(x: int) -> int ; rows are sorted by name and "m1" < "m9" < "zz"
 Second == [name |-> "zz", mtype |-> "unary", has_return |-> TRUE, params |-> <<[n |-> "x", arrow |-> "int64", nul |-> FALSE]>>,
            result |-> <<[n |-> "result", arrow |-> "int64", nul |-> FALSE]>>, has_header |-> FALSE, header |-> "none",
            is_exchange |-> "null"]
 Payload(d) == [pname |-> d.pname, methods |-> IF d.second THEN <<MethodPayload(d.m), Second>> ELSE <<MethodPayload(d.m)>>]
 VersionOf(d) == CASE d.version = "none" -> "" [] d.version = "v120" -> "1.2.0" [] d.version = "v130" -> "1.3.0"
+
+\* the normative classification of edit kinds (one row per kind).  Retypes and state-kind changes that leave every describe
+\* field as it was (bytes <-> dataclass <-> RecordBatch, list[int] <-> frozenset[int] <-> list[Optional[int]], int <-> NewType
+\* <-> Annotated[int, note], Stream[RawState] <-> bare Stream) are "either": DESIGN 7a ties relevance to the describe payload.
+Wire(d, ed) ==
+  LET e == ed.e IN
+  IF e \in EnvEdits \cup {"protocol_doc", "method_doc", "remove_doc", "param_doc", "swap_method_order", "state_class", "default",
+                         "inherit", "private_members", "module_name", "optional_spelling", "keyword_only"} THEN "irrelevant"
+  ELSE IF e = "version" THEN "either"                         \* carried by describe, deliberately outside the hash; statement silent
+  ELSE IF e \in {"retype_param", "retype_ret", "kind"} /\ Payload(Apply(d, ed)) = Payload(d) THEN "either"
+  ELSE "relevant"
 
 Expected(c) == [d2 |-> Apply(c.d, c.ed), wire |-> Wire(c.d, c.ed), env |-> c.ed.e \in EnvEdits]
 
@@ -133,7 +171,7 @@ EditChangesSomething(c)     == c.ed.e \in EnvEdits \/ Apply(c.d, c.ed) # c.d
 WellFormed(d) == LET ps == d.m.params IN
                    /\ \A i, j \in 1..Len(ps) : (i < j /\ ps[i].dflt # "none") => ps[j].dflt # "none"
                    /\ \A i, j \in 1..Len(ps) : i # j => ps[i].n # ps[j].n
-                   /\ (d.m.kind # "unary_ret" => d.m.ret = NoRet) /\ (d.m.kind \notin Streams => d.m.hdr = "none")
+                   /\ (d.m.kind # "unary_ret" => d.m.ret = NoRet) /\ d.m.hdr \in HdrsOf(d.m.kind)
 EditedWellFormed(c)         == WellFormed(c.d) /\ WellFormed(Apply(c.d, c.ed))
 
 \* ---------------------------------------------------------------- judging the implementation
